@@ -91,7 +91,9 @@ def rule_R5_strip(text):
         out.append(ln)
     text = '\n'.join(out)
     text, k = re.subn(r'\bpub\s*\(\s*(crate|super)\s*\)', 'pub', text)
-    return text, n + k
+    # legacy constant paths (`std::u32::MAX`) -> associated constants (`u32::MAX`): same values
+    text, k2 = re.subn(r'\b(?:std|core)::(u8|u16|u32|u64|u128|usize|i8|i16|i32|i64|i128|isize)::(MAX|MIN)\b', r'\1::\2', text)
+    return text, n + k + k2
 
 
 def _receiver_start(m, dot):
@@ -270,6 +272,47 @@ def rule_R8_R11_shape(text):
     return text, n + k
 
 
+def rule_R13_desugar(text):
+    """R13 (opt-in, `//@ desugar`): `for (I, E) in X.iter_mut().enumerate() { B }` and `for E in X.iter_mut() { B }` become the
+    index loop they abbreviate: `let mut verif_k = 0; while verif_k < X.len() { let I = verif_k; let E = &mut X[verif_k]; B verif_k += 1; }`.
+    Element values are kept (unlike R8/R11).  The loop keeps its ordinal; the expansion stays on the header line."""
+    n = 0
+    while True:
+        m = rsscan.mask(text)
+        hit = None
+        for mt in re.finditer(r'\bfor\s+(\(\s*\w+\s*,\s*\w+\s*\)|\w+)\s+in\s+', m):
+            if not rsscan.is_stmt_start(m, mt.start(), 0):
+                continue
+            bo = rsscan.find_body_open(m, mt.end())
+            if bo < 0:
+                continue
+            hdr = ' '.join(text[mt.end():bo].split())
+            names = re.findall(r'\w+', mt.group(1))
+            z = re.fullmatch(r'(.+?)\.iter_mut\(\)\.enumerate\(\)', hdr)
+            if z and len(names) == 2:
+                hit = (mt.start(), bo, z.group(1), names[0], names[1])
+                break
+            z = re.fullmatch(r'(.+?)\.iter_mut\(\)', hdr)
+            if z and len(names) == 1:
+                hit = (mt.start(), bo, z.group(1), None, names[0])
+                break
+        if not hit:
+            break
+        a, bo, x, iv, ev = hit
+        bc = rsscan.match_close(m, bo)
+        k = 'verif_k%d' % n
+        head = 'let mut %s: usize = 0; while %s < %s.len() ' % (k, k, x)
+        first = '{ ' + (('let %s = %s; ' % (iv, k)) if iv else '') + 'let %s = &mut %s[%s]; ' % (ev, x, k)
+        body = text[bo + 1:bc]
+        old = text[a:bc + 1]
+        new = head + '\n' * text[a:bo].count('\n') + first + body + ' %s += 1; }' % k
+        if new.count('\n') != old.count('\n'):
+            raise Inconclusive('R13 changed the line count')
+        text = text[:a] + new + text[bc + 1:]
+        n += 1
+    return text, n
+
+
 def annotate_closure(text, k, params, spec):
     """R1 (closures): give the k-th closure literal typed parameters and a requires/ensures clause."""
     m = rsscan.mask(text)
@@ -368,6 +411,7 @@ class FnEdit:
         self.shape = False
         self.afterloops = {}
         self.attrs = []
+        self.desugar = False
 
 
 class Generator:
@@ -544,6 +588,8 @@ class Generator:
                         e.external = True
                 elif c == 'shape':
                     e.shape = True
+                elif c == 'desugar':
+                    e.desugar = True
                 elif c == 'attr':
                     e.attrs.append(d[len('attr'):].strip())
                 elif c == 'closure':
@@ -715,6 +761,11 @@ class Generator:
                 raise Inconclusive('%s: local rewrite %r did not match' % (path, rg))
             self._count('local-sub', k)
             self.log.append({'rule': 'local-sub', 'fn': path, 'regex': rg, 'repl': rp, 'count': k})
+        if edit.desugar:
+            text, k = rule_R13_desugar(text)
+            if k:
+                self._count('R13', k)
+                self.log.append({'rule': 'R13', 'fn': path, 'count': k})
         if edit.shape:
             text, k = rule_R8_R11_shape(text)
             if k:
